@@ -98,7 +98,7 @@ var _ raftpb.Entry
 //@ requires [wal] this != nil && this.db != nil && this.cache != nil
 //@ ensures [C06 cached-last-index-is-the-answer] lastHit == 1 ==> ret0 == cachedLastV && isnil(ret1) && sought == 0
 //@ ensures [C06 otherwise-the-greatest-stored-key] lastHit == 0 ==> sought == 1 && ret0 == soughtIdx && ret1 == soughtErr
-//@ modifies * except type badgerWAL.cache; type badgerWAL.db; type badgerWAL.groupId; mem[raftpb.Entry]
+//@ modifies nothing
 //@ func (*storage/wal.badgerWAL).writeEntries
 //@ props C06
 //@ safety UNCLAIMED
@@ -249,7 +249,7 @@ var _ raftpb.Entry
 //@ requires [wal] this != nil && this.db != nil && batch != nil
 //@ ensures [C06 scan-runs-to-the-end] isnil(ret) ==> positioned == 1 && lastValid == 0
 //@ ensures [C06 every-key-met-is-queued] isnil(ret) ==> queued == seen
-//@ modifies * except type badgerWAL.cache; type badgerWAL.db; mem[raftpb.Entry]
+//@ modifies nothing
 
 //@ func (*storage/wal.badgerWAL).deleteEntriesFromIndex$1
 //@ inline
@@ -390,6 +390,102 @@ var _ raftpb.Entry
 //@ invariant [C06 size-limit] len(*entries) >= 2 ==> total <= *maxSize
 
 // ---------------------------------------------------------------------------------------------
+// C06: opening and deleting a group. Opening seeds the log with the dummy entry (index 0, term 0: the reference storage's
+// ents[0]) only when the first-index lookup found nothing under the group's prefix - a log that holds anything is never reset
+// by a reopen, and a read error ends the process instead of wiping the group. Deleting a group wipes every entry key (scan
+// from index 0), its hard state and its snapshot, drops the cache, and goes to disk in one flush; the seed entries of a
+// reset are written after the wipe, each under the key of its own index.
+//@ func (*storage/wal.badgerWAL).reset
+//@ props C06
+//@ safety UNCLAIMED
+//@ ghost wiped int = 0
+//@ ghost hsKey []byte = nil
+//@ ghost ssKey []byte = nil
+//@ ghost hsDeleted int = 0
+//@ ghost ssDeleted int = 0
+//@ ghost keyIdx uint64 = 0
+//@ ghost key []byte = nil
+//@ ghost data []byte = nil
+//@ ghost written int = 0
+//@ ghost flushed int = 0
+//@ ghost theBatch *badger.WriteBatch = nil
+//@ at call DB).NewWriteBatch
+//@ set theBatch = $ret0
+//@ end
+//@ at call badgerWAL).deleteEntriesFromIndex
+//@ requires [C06 every-entry-of-the-group-is-wiped] $arg0 == this && $arg1 == theBatch && $arg2 == 0 && wiped == 0
+//@ set wiped = 1
+//@ end
+//@ at call badgerWAL).hardStateKey
+//@ set hsKey = $ret0
+//@ end
+//@ at call badgerWAL).snapshotKey
+//@ set ssKey = $ret0
+//@ end
+//@ at call WriteBatch).Delete
+//@ requires [C06 hard-state-and-snapshot-go-with-the-group] $arg0 == theBatch && wiped == 1 && written == 0 && ((hsDeleted == 0 && ssDeleted == 0 && hsKey != nil && $arg1 == hsKey) || (hsDeleted == 1 && ssDeleted == 0 && ssKey != nil && $arg1 == ssKey))
+//@ set ssDeleted = ite(hsDeleted == 1, 1, 0)
+//@ set hsDeleted = 1
+//@ end
+//@ at call Entry).Marshal
+//@ set data = $ret0
+//@ end
+//@ at call badgerWAL).entryKey
+//@ set keyIdx = $arg1
+//@ set key = $ret0
+//@ end
+//@ at call WriteBatch).Set
+//@ requires [C06 seed-entries-after-the-wipe-under-their-own-keys] $arg0 == theBatch && hsDeleted == 1 && ssDeleted == 1 && $arg1 == key && keyIdx == entry.Index && $arg2 == data && flushed == 0
+//@ set written = written + 1
+//@ end
+//@ at call WriteBatch).Flush
+//@ requires [C06 one-flush-with-everything] $arg0 == theBatch && wiped == 1 && hsDeleted == 1 && ssDeleted == 1 && written == len(entries) && flushed == 0
+//@ set flushed = 1
+//@ end
+//@ requires [wal] this != nil && this.db != nil
+//@ ensures [C06 cache-dropped] this.cache != nil && this.cache != old(this.cache)
+//@ ensures [C06 same-store-same-group] this.db == old(this.db) && this.groupId == old(this.groupId)
+//@ ensures [C06 group-wiped-and-flushed] isnil(ret) ==> flushed == 1
+//@ modifies fields(this)
+//@ loop 1
+//@ invariant [C06 seeded-so-far] written == rangeindex + 1 && hsDeleted == 1 && ssDeleted == 1 && wiped == 1 && flushed == 0
+//@ invariant [same-wal] this.db != nil && theBatch != nil
+
+//@ func (*storage/wal.badgerWAL).DeleteGroup
+//@ props C06
+//@ safety UNCLAIMED
+//@ ghost resets int = 0
+//@ ghost resetErr error = nil
+//@ at call badgerWAL).reset
+//@ requires [C06 nothing-is-seeded-into-a-deleted-group] $arg0 == this && len($arg1) == 0 && resets == 0
+//@ set resets = 1
+//@ set resetErr = $ret0
+//@ end
+//@ requires [wal] this != nil && this.db != nil
+//@ ensures [C06 deleting-resets-the-group] resets == 1 && ret == resetErr
+//@ modifies fields(this)
+
+//@ func storage/wal.NewBadgerWAL
+//@ props C06 C14 C05 C12
+//@ safety UNCLAIMED
+//@ ghost looked int = 0
+//@ ghost firstErr error = nil
+//@ ghost resets int = 0
+//@ at call badgerWAL).FirstIndex
+//@ set looked = 1
+//@ set firstErr = $ret1
+//@ end
+//@ at call badgerWAL).reset
+//@ requires [C06 only-an-empty-log-is-seeded] looked == 1 && !isnil(firstErr) && firstErr == entryNotFoundErr && resets == 0
+//@ requires [C06 seeded-with-the-dummy-entry] len($arg1) == 1 && $arg1[0].Index == 0 && $arg1[0].Term == 0 && len($arg1[0].Data) == 0
+//@ set resets = 1
+//@ end
+//@ requires [db] db != nil
+//@ ensures [C06 opened-over-the-given-store-and-group] ret != nil && ret.db == db && ret.groupId == groupId && ret.cache != nil
+//@ ensures [C06 a-log-that-holds-anything-is-not-reset] isnil(firstErr) ==> resets == 0
+//@ modifies nothing
+
+// ---------------------------------------------------------------------------------------------
 // C06 / C03: local snapshot and compaction. The reference storage after CreateSnapshot(i) + Compact(i) starts at i+1 and its
 // snapshot carries the index asked for with the term of the entry stored there. Here the first index is derived from the
 // first stored key, so: the marker/snapshot is written for exactly the requested index with the term of the stored entry, and
@@ -498,7 +594,7 @@ var _ raftpb.Entry
 //@ ensures [C06 C03 cached-snapshot-decides] snapHit == 1 ==> (snapIdx < 18446744073709551615 ==> ret0 == snapIdx + 1) && isnil(ret1) && sought == 0 && stored == 0
 //@ ensures [C06 C03 then-the-cached-first-index] snapHit == 0 && firstHit == 1 ==> ret0 == firstV && isnil(ret1) && sought == 0 && stored == 0
 //@ ensures [C06 C03 else-one-past-the-smallest-stored-key] snapHit == 0 && firstHit == 0 ==> sought == 1 && (isnil(soughtErr) ==> (soughtIdx < 18446744073709551615 ==> ret0 == soughtIdx + 1) && isnil(ret1) && stored == 1) && (!isnil(soughtErr) ==> ret1 == soughtErr && stored == 0)
-//@ modifies * except type badgerWAL.cache; type badgerWAL.db; type badgerWAL.groupId; mem[raftpb.Entry]
+//@ modifies nothing
 // compaction scan (the real closure runs in place over the assumed Badger iterator, like the range scan of Entries): every key
 // the scan meets below the bound is queued for deletion, and the scan stops only when the iterator is exhausted or the bound is
 // reached (a scan that gives up early leaves entries in front of the snapshot marker: after a reopen the first index is wrong)
@@ -671,7 +767,7 @@ var _ raftpb.Entry
 //@ ensures [C06 no-snapshot-is-empty-not-an-error] snapHit == 0 && !isnil(getErr) && getErr == badger.ErrKeyNotFound ==> got == 1 && isnil(ret1) && ret0.Metadata.Index == 0 && ret0.Metadata.Term == 0 && decoded == 0
 //@ ensures [C06 read-errors-surface] snapHit == 0 && !isnil(getErr) && getErr != badger.ErrKeyNotFound ==> ret1 == getErr
 //@ ensures [C06 stored-snapshot-is-decoded] snapHit == 0 && isnil(getErr) ==> got == 1 && decoded == 1 && (decErr != badger.ErrKeyNotFound ==> ret1 == decErr)
-//@ modifies * except type badgerWAL.cache; type badgerWAL.db; type badgerWAL.groupId
+//@ modifies nothing
 
 //@ func (*storage/wal.badgerWAL).Snapshot$1
 //@ inline
@@ -702,7 +798,7 @@ var _ raftpb.Entry
 //@ requires [wal] this != nil && this.db != nil && this.cache != nil
 //@ ensures [C06 read-errors-surface] (!isnil(hsErr) ==> ret2 == hsErr) && (isnil(hsErr) && !isnil(ssErr) ==> ret2 == ssErr)
 //@ ensures [C06 both-read] isnil(ret2) ==> reads == 2 && isnil(hsErr) && isnil(ssErr)
-//@ modifies * except type badgerWAL.cache; type badgerWAL.db; type badgerWAL.groupId
+//@ modifies nothing
 //@ func (*storage/wal.badgerWAL).Entries
 //@ props C06
 //@ safety UNCLAIMED
